@@ -11,7 +11,7 @@ class _RL(dict):
 UNIT_RLIMIT = _RL({"div_small": 80, "mul_redc": 80})      # unit -> --rlimit (Verus default is 10; 5x head-room over the measured maximum)
 UNIT_TIMEOUT = {"knuth": 1500, "addmul": 900, "mul_redc": 1200}     # unit -> seconds
 UNIT_EXPECT = {       # unit -> minimum number of verified functions on the unchanged tree (vacuity guard)
-    "core": 31, "add": 29, "kernels": 79, "addmul": 71, "addmul_n": 73, "mul": 51, "divd": 45, "div_small": 235, "knuth": 145, "mul_redc": 126, "basics": 22, "pow": 38, "divw": 54, "modular": 70, "spigot": 44, "gcd": 24, "forward": 57, "invring": 47, "bitlen": 70, "shifts": 131, "recip_table": 2, "gcdext": 67, "gcdw": 36, "bits": 78, "conv": 44, "lehmer": 38, "jebelean": 92, "logs": 27, "forward_shift": 81, "fmt_consts": 5,
+    "core": 31, "add": 29, "kernels": 79, "addmul": 71, "addmul_n": 73, "mul": 51, "divd": 45, "div_small": 235, "knuth": 145, "mul_redc": 126, "basics": 22, "pow": 38, "divw": 54, "modular": 70, "spigot": 44, "gcd": 24, "forward": 57, "invring": 47, "bitlen": 70, "shifts": 131, "recip_table": 2, "gcdext": 67, "gcdw": 36, "bits": 78, "conv": 44, "lehmer": 38, "jebelean": 92, "logs": 27, "forward_shift": 81, "fmt_consts": 5, "rotate": 30,
 }
 
 COMMON_TRUST = [
@@ -136,12 +136,13 @@ PROPS = {
         level="proof",
         level_text="Verus proves, for every BITS/LIMBS, every value and EVERY usize shift amount (whole-limb, sub-limb, mixed, >= BITS, >= 64*LIMBS): overflowing_shl returns (value*2^s mod 2^BITS, value*2^s >= 2^BITS), "
                    "overflowing_shr returns (floor(value/2^s), value mod 2^s != 0); checked_shl/saturating_shl/wrapping_shl/checked_shr/wrapping_shr follow from those contracts; and the 80 operator impls that impl_shift! generates "
-                   "for the ten primitive amount types (<<, >>, <<=, >>= by value and by reference) forward to wrapping_shl / wrapping_shr with the amount cast to usize (bodies re-extracted from the macro-expanded crate)",
-        level_note="NOT under Verus: the Uint-typed shift amounts (Shl<Uint> etc.: Kani per width), rotate_left/right and arithmetic_shr (built from the operators; Kani per width). In unit forward_shift the nested operator uses "
+                   "for the ten primitive amount types (<<, >>, <<=, >>= by value and by reference) forward to wrapping_shl / wrapping_shr with the amount cast to usize (bodies re-extracted from the macro-expanded crate); "
+                   "rotate_left / rotate_right are the cyclic bit permutation for every amount (bit j of the result is bit (j -+ s) mod BITS of the value) and arithmetic_shr replicates bit BITS-1 (statements about every bit)",
+        level_note="NOT under Verus: the Uint-typed shift amounts (Shl<Uint> etc.: Kani per width). rotate / arithmetic_shr are proved over per-bit operator contracts for <<, >>, |, |= (assumed in unit rotate; justified by units shifts, bits, forward_shift). In unit forward_shift the nested operator uses "
                    "inside the `&T` and compound-assignment impls are resolved by hand to the impl rustc's trait selection picks from the operand types (declared optional rewrites). "
                    "ASSUMED: derived PartialEq (limb-wise == value equality)",
         technique="deductive contracts (Verus, all widths and all shift amounts) + Kani per width for operators, rotations and arithmetic shift",
-        units=["core", "shifts", "forward_shift"],
+        units=["core", "basics", "bits", "shifts", "forward_shift", "rotate"],
         kani=dict(features=None, quick=hs("c05", None, r"_slow"), thorough=hs("c05"), bounds="see kani/src/c05.rs: fixed widths, all values, all shift amounts up to BITS + 64*LIMBS + 1"),
         explanation="loop invariant lv(r[L..L+i]) + B^i*carry = lv(self[0..i]) * 2^b (shl) resp. lv(r[k-i..k]) * 2^b + (y mod 2^b) = lv(self[n-i..n]) (shr) with the carry tied to the previous limb; "
                     "lemma_shl_result / lemma_shr_result lift limb facts to value*2^s mod 2^BITS, floor(value/2^s) and the exact lost-bits flag",
